@@ -333,6 +333,7 @@ Definition missing_msg (m : modk) : string :=
 Definition modcompile_msg : string := "Unhandled ImportError: Error compiling module:".
 Definition superclass_msg : string := "Unhandled RuntimeError: Superclass must be a class.".
 Definition attr_msg : string := "Unhandled AttributeError: Undefined property 'foo'.".
+Definition total_msg : string := "Unhandled NameError: Undefined variable 'total'.".
 Definition syntax_msg : string := "[module ""main"", line 1] Error at '=': Expected variable name.".
 Definition mod_v (m : modk) : string :=
   match m with MGood => "10" | MThrow => "5" | MNest => "1" | _ => "?" end.
@@ -500,6 +501,11 @@ Definition code_where (w : where_) : list instr :=
   | WBuiltin => [IPush false; IBuiltinErr KAttr attr_msg; IOut "nf"; IEndFinally true]
   | WCaptureFiber => [ICall; ICapture 41; IFiberEnter; IThrow 1]
   | WFiberWait => [IDefG GFib VFiber; IFiberEnter; IFiberEnter; IThrow 1]
+  (* set_global_impl: attributes.insert(name, value); the name was absent: remove it again, then NameError.
+     Net effect on the globals before the error is raised: none *)
+  | WSetGlobal => [IBuiltinErr KName total_msg]
+  | WSetGlobalNested => [ICall; IBuiltinErr KName total_msg]
+  | WSetGlobalFiber => [IFiberEnter; IBuiltinErr KName total_msg]
   end.
 
 Definition code_of (s : snip) : list instr :=
@@ -520,6 +526,7 @@ Definition code_of (s : snip) : list instr :=
   | SnRange k => IRange (depth_nat k) :: map (fun i => IOut (show_nat i)) (seq 0 (depth_nat k))
   | SnUseLeak => [IUseLeak]
   | SnUseFiber => [IUseFiber]
+  | SnProbeTotal => [IBuiltinErr KName total_msg]   (* GetGlobal of a name no snippet declares *)
   | SnImport m => [IStartImport m; IFinishImport m true; IUseMod m]
   | SnUseMod m => [IUseMod m]
   | SnReset => []
@@ -534,6 +541,8 @@ Definition chunks_where (w : where_) : nat :=
   | WCapture => 3
   | WCaptureFiber => 4
   | WFiberWait => 3
+  | WSetGlobal => 1
+  | WSetGlobalNested | WSetGlobalFiber => 2
   end.
 Definition chunks_of (s : snip) : nat :=
   match s with
